@@ -202,6 +202,8 @@ def run(tier: str) -> int:
             if rn["outT"] != rd["outT"]:
                 problems.append(f"source node output {rn['outT']} != processor output {rd['outT']}")
         elif kind in ("dataSink", "payloadSink", "probe"):
+            if kind != "probe" and rd["outT"] != rd["inT"]:
+                problems.append(f"sink adapter does not pass its input type through ({rd['inT']} -> {rd['outT']})")
             if rn["outT"] != rn["inT"]:
                 problems.append(f"{kind} node does not pass its input type through ({rn['inT']} -> {rn['outT']})")
             if rn["inT"] != rd["inT"]:
